@@ -38,11 +38,16 @@ H['rcg'] = dict(
     functions=['Oomd::Engine::Ruleset::', 'Oomd::Engine::DetectorGroup::', 'Oomd::OomdContext::', 'Oomd::CgroupPath::'],
     variants={
         'quick': [dict(name='t2c2_live%02d' % m, defs={'H_T': 2, 'H_NC': 2, 'H_D': 1, 'H_A': 1, 'H_LIVE': m, 'H_FILTER': 0}, reach_optional=True) for m in range(1, 16)]
-                 + [dict(name='t2c2_tag%02d' % m, defs={'H_T': 2, 'H_NC': 2, 'H_D': 1, 'H_A': 1, 'H_LIVE': m, 'H_FILTER': 1}, reach_optional=True) for m in ()],
+                 + [dict(name='t2c2_tag%02d' % m, defs={'H_T': 2, 'H_NC': 2, 'H_D': 1, 'H_A': 1, 'H_LIVE': m, 'H_FILTER': 1}, reach_optional=True) for m in (4, 6, 13)],
         'thorough': [dict(name='t3c2_live%02d' % m, defs={'H_T': 3, 'H_NC': 2, 'H_D': 1, 'H_A': 2, 'H_LIVE': m, 'H_FILTER': 0}, reach_optional=True, timeout=3000) for m in range(1, 64)]
                     + [dict(name='t3c2_tag%02d' % m, defs={'H_T': 3, 'H_NC': 2, 'H_D': 1, 'H_A': 2, 'H_LIVE': m, 'H_FILTER': 1}, reach_optional=True, timeout=3000) for m in (21, 42, 27, 45, 51)],
     },
 )
+
+def _tpl(t, mode, timeout=900):
+    # template variant of the size-parser harness (see h_parsesize.cpp); string capacity follows the template length
+    return dict(name='%s_%s' % ('size' if mode == 0 else 'pct', t.replace('.', 'P').replace('-', 'N')), defs={'H_LEN': len(t), 'H_MODE': mode, 'H_TPL': '"%s"' % t, 'VSTL_STR_CAP': max(8, len(t) + 4)}, unwind=max(9, len(t) + 5), timeout=timeout)
+
 
 H['parsesize'] = dict(
     props=['C12'], dir='harness/parse',
@@ -51,8 +56,10 @@ H['parsesize'] = dict(
     unwind=9, timeout=600,
     functions=['Oomd::Util::parseSize', 'Oomd::Util::parseSizeOrPercent'],
     variants={
-        'quick': [dict(name='size_l%d' % l, defs={'H_LEN': l, 'H_MODE': 0}) for l in (1, 2, 3)] + [dict(name='pct_l%d' % l, defs={'H_LEN': l, 'H_MODE': 1}) for l in (2, 3)],
-        'thorough': [dict(name='size_l%d' % l, defs={'H_LEN': l, 'H_MODE': 0}, timeout=2400) for l in (1, 2, 3, 4, 5)] + [dict(name='pct_l%d' % l, defs={'H_LEN': l, 'H_MODE': 1}, timeout=2400) for l in (2, 3, 4)],
+        'quick': [dict(name='size_l%d' % l, defs={'H_LEN': l, 'H_MODE': 0}) for l in (1, 2, 3)] + [dict(name='pct_l%d' % l, defs={'H_LEN': l, 'H_MODE': 1}) for l in (2, 3)]
+                 + [_tpl('DDDDDDDU', 0)],
+        'thorough': [dict(name='size_l%d' % l, defs={'H_LEN': l, 'H_MODE': 0}, timeout=2400) for l in (1, 2, 3, 4, 5)] + [dict(name='pct_l%d' % l, defs={'H_LEN': l, 'H_MODE': 1}, timeout=2400) for l in (2, 3, 4)]
+                    + [_tpl(t, 0, 2400) for t in ('DDDDDDDU', 'DDDDDDDDDDU', 'DDDDDDDDDDDDDU', 'DDDDDDDDDDDDDDD', 'DDDDDDDUDDDDDDDU', 'DDDD.DDDU', '-DDDDDDDU')] + [_tpl('DDDDDDDU', 1, 2400), _tpl('DDDDDDDDDDDDD', 1, 2400)],
     },
 )
 
@@ -83,19 +90,25 @@ DROPIN_SEQS_MORE = [
 ]
 
 
-def _dropin_variants(seqs, timeout):
-    return [dict(name=n, defs={'H_K': len(ops), 'H_OPS': '{' + ','.join(str(o) for o in ops) + '}', 'H_MAXTARGET': 4, 'H_HOOKS': 1}, reach_optional=True, timeout=timeout) for n, ops in seqs]
+# drop-in permissions (bit0 disable-on-drop-in, bit1 detectors may be replaced, bit2 actions may be replaced) of base r0, r1
+DROPIN_FLAGS_QUICK = [(7, 7), (6, 3), (5, 6)]
+DROPIN_FLAGS_ALL = [(7, 7), (6, 3), (5, 6), (0, 7), (1, 1), (2, 4), (4, 2), (3, 5)]
+
+
+def _dropin_variants(seqs, flags, timeout):
+    return [dict(name='%s_f%d%d' % (n, f0, f1), defs={'H_K': len(ops), 'H_OPS': '{' + ','.join(str(o) for o in ops) + '}', 'H_FLAGS': '{%d,%d}' % (f0, f1), 'H_MAXTARGET': 4, 'H_HOOKS': 1}, reach_optional=True, timeout=timeout)
+            for n, ops in seqs for (f0, f1) in flags]
 
 
 H['dropin'] = dict(
     props=['C13'], dir='harness/dropin',
     oomd=ENGINE_OOMD + ['config/ConfigCompiler.cpp', 'dropin/DropInServiceAdaptor.cpp'], cxx=['h_dropin.cpp', 'env/fs_unreachable.cpp'] + ENGINE_ENV, c=['main_dropin.c'],
-    defs={'VSTL_STR_CAP': 8, 'VSTL_VEC_MAX': 4, 'VSTL_MAP_MAX': 4, 'VF_ACT_ADV_MAX_S': 0, 'VF_RET_MAX': 1},
-    unwind=9, timeout=1200,
+    defs={'VSTL_STR_CAP': 8, 'VSTL_VEC_MAX': 4, 'VSTL_MAP_MAX': 8, 'VF_ACT_ADV_MAX_S': 0, 'VF_RET_MAX': 1},
+    unwind=11, timeout=1200,   # oracle loop over 2*H_K+1 entries (H_K <= 4) + string capacity 8
     functions=['Oomd::Engine::Engine::', 'Oomd::Engine::Ruleset::mergeWithDropIn', 'Oomd::Engine::Ruleset::markDropIn', 'Oomd::Config2::compile', 'Oomd::DropInServiceAdaptor::', 'compileRuleset'],
     variants={
-        'quick': _dropin_variants(DROPIN_SEQS_QUICK, 1500),
-        'thorough': _dropin_variants(DROPIN_SEQS_QUICK + DROPIN_SEQS_MORE, 3000),
+        'quick': _dropin_variants(DROPIN_SEQS_QUICK, DROPIN_FLAGS_QUICK, 1500),
+        'thorough': _dropin_variants(DROPIN_SEQS_QUICK + DROPIN_SEQS_MORE, DROPIN_FLAGS_ALL, 3000),
     },
 )
 
@@ -126,7 +139,9 @@ def _path_variants(lens, len2s, timeout):
             for l2 in (len2s if law in (2, 3, 4, 5) else (0,)):
                 if law == 6 and l == 0:
                     continue
-                out.append(dict(name='law%d_l%d_%d' % (law, l, l2), defs={'H_LAW': law, 'H_LEN': l, 'H_LEN2': l2}, reach_optional=True, timeout=timeout))
+                # string capacity: "/c/" + path [+ "/" + second string] + NUL + one spare (symbolic-length string loops cost capacity^2)
+                cap = max(6, 3 + l + (1 + l2 if law in (2, 5) else 0) + 2, 3 + l2 + 2)
+                out.append(dict(name='law%d_l%d_%d' % (law, l, l2), defs={'H_LAW': law, 'H_LEN': l, 'H_LEN2': l2, 'VSTL_STR_CAP': cap}, unwind=max(cap + 1, 8), reach_optional=True, timeout=timeout))
     return out
 
 
@@ -148,18 +163,21 @@ KILL_ENV = ['env/dump_stub.cpp', 'env/world.cpp', 'env/world_kill.cpp', 'env/sta
 H['kill'] = dict(
     props=['C01', 'C03', 'C04', 'C17'], dir='harness/kill',
     oomd=KILL_OOMD, cxx=['h_kill.cpp'] + KILL_ENV, c=['main_kill.c', 'env/libc_stubs.c'],
+    override_cxx=['env/kill_overrides.cpp'], override_symbols=['_ZN4Oomd14BaseKillPlugin14dumpMemoryStatERKNS_13CgroupContextE'],
     defs={'VSTL_STR_CAP': 24, 'VSTL_VEC_MAX': 4, 'VSTL_MAP_MAX': 6, 'VFW_MAXN': 5, 'VFW_MAXPIDS': 2, 'VF_CFG_N': 12},
     unwind=9, unwind_big=25, timeout=1500,
     functions=['Oomd::BaseKillPlugin::', 'Oomd::OomdContext::', 'Oomd::CgroupContext::', 'Oomd::CgroupPath::'],
     variants={
         'quick': [
             dict(name='star_n3', defs={'H_NODES': 3, 'H_PAT': 1, 'H_NPIDS': 2, 'H_NO_KERNELKILL': 1}, props=['C01', 'C03', 'C17'], reach_optional=True),
+            dict(name='star_n3_pref', defs={'H_NODES': 3, 'H_PAT': 1, 'H_NPIDS': 2, 'H_NO_KERNELKILL': 1, 'H_CUR': '{0,2,1,0,0}', 'H_XA': '{0,4,1,0,0}'}, props=['C01', 'C03', 'C17'], reach_optional=True),
             dict(name='star_n5', defs={'H_NODES': 5, 'H_PAT': 1, 'H_NPIDS': 1, 'H_NO_KERNELKILL': 1}, props=['C01', 'C03', 'C17'], reach_optional=True),
             dict(name='kk_n3', defs={'H_NODES': 3, 'H_PAT': 2, 'H_NPIDS': 1, 'H_KERNELKILL': 1}, props=['C01', 'C17'], reach_optional=True),
             dict(name='drywet_n3', defs={'H_NODES': 3, 'H_PAT': 1, 'H_NPIDS': 1, 'H_MODE': 1, 'H_NO_KERNELKILL': 1}, props=['C04'], reach_optional=True),
         ],
         'thorough': [
             dict(name='star_n5p2', defs={'H_NODES': 5, 'H_PAT': 1, 'H_NPIDS': 2, 'H_NO_KERNELKILL': 1}, props=['C01', 'C03', 'C17'], reach_optional=True, timeout=3000),
+            dict(name='star_n5p2_r', defs={'H_NODES': 5, 'H_PAT': 1, 'H_NPIDS': 2, 'H_NO_KERNELKILL': 1, 'H_CUR': '{0,1,2,2,1}', 'H_XA': '{0,0,0,8,0}'}, props=['C01', 'C03', 'C17'], reach_optional=True, timeout=3000),
             dict(name='sub_n5', defs={'H_NODES': 5, 'H_PAT': 3, 'H_NPIDS': 2, 'H_NO_KERNELKILL': 1}, props=['C01', 'C03', 'C17'], reach_optional=True, timeout=3000),
             dict(name='a_n5', defs={'H_NODES': 5, 'H_PAT': 0, 'H_NPIDS': 2}, props=['C01', 'C03', 'C17'], reach_optional=True, timeout=3000),
             dict(name='kk_n5', defs={'H_NODES': 5, 'H_PAT': 1, 'H_NPIDS': 1, 'H_KERNELKILL': 1}, props=['C01', 'C17'], reach_optional=True, timeout=3000),
@@ -178,6 +196,14 @@ H['log'] = dict(
     variants={
         'quick': [dict(name='step', defs={'H_MODE': 1}), dict(name='flush', defs={'H_MODE': 2}), dict(name='kmsg', defs={'H_MODE': 3})],
     },
+)
+
+H['micro2'] = dict(
+    props=['XX'], dir='harness/micro2',
+    oomd=['util/Util.cpp', 'include/CgroupPath.cpp', 'util/PluginArgParser.cpp', 'PluginRegistry.cpp', 'PluginConstructionContext.cpp'], cxx=['h_m2.cpp'], c=['harness/micro/main_micro.c'],
+    defs={'VSTL_STR_CAP': 8, 'VSTL_VEC_MAX': 4, 'VSTL_MAP_MAX': 4},
+    unwind=9, timeout=300, functions=[],
+    variants={'quick': [dict(name='m%d' % m, defs={'H_M': m}) for m in (23, 24)]},
 )
 
 BOUNDS = {}
